@@ -1,8 +1,366 @@
-//! C06 — not built yet.
+//! C06 — CPU-visible memory follows the Spectrum memory map and 128K paging rules.
+//! Real code: ZXMemory + write_7ffd behind the real bus entry points (hook H1: verif_write_io for
+//! the paging port incl. partial decodes, verif_write_mem / verif_read_mem / peek for memory),
+//! host-supplied ROM sets through Emulator::load_rom.
+use crate::host::*;
 use crate::util::*;
+use rustzx_core::host::{RomFormat, RomSet};
 
-pub fn run(_o: &Opts) -> Report {
+fn rom_byte(seed: usize, o: usize) -> u8 {
+    (o * 7 + (o >> 8) * 13 + seed * 29 + 1) as u8
+}
+
+struct Roms(Vec<VAsset>);
+impl RomSet for Roms {
+    type Asset = VAsset;
+    fn format(&self) -> RomFormat {
+        RomFormat::Binary16KPages
+    }
+    fn next_asset(&mut self) -> Option<VAsset> {
+        if self.0.is_empty() {
+            None
+        } else {
+            Some(self.0.remove(0))
+        }
+    }
+}
+
+#[derive(Clone, Debug)]
+enum Op {
+    /// paging write through `port` (a port that decodes to the latch on the 128K)
+    Out(u16, u8),
+    Wr(u16, u8),
+    Rd(u16),
+}
+
+impl Op {
+    fn text(&self) -> String {
+        match self {
+            Op::Out(p, v) => format!("out {:04x} {:02x}", p, v),
+            Op::Wr(a, v) => format!("wr {:04x} {:02x}", a, v),
+            Op::Rd(a) => format!("rd {:04x}", a),
+        }
+    }
+    fn parse(s: &str) -> Option<Op> {
+        let t: Vec<&str> = s.split_whitespace().collect();
+        let h = |x: &str| u16::from_str_radix(x, 16).ok();
+        match t.as_slice() {
+            ["out", p, v] => Some(Op::Out(h(p)?, h(v)? as u8)),
+            ["wr", a, v] => Some(Op::Wr(h(a)?, h(v)? as u8)),
+            ["rd", a] => Some(Op::Rd(h(a)?)),
+            _ => None,
+        }
+    }
+}
+
+struct Machine {
+    e: Emu,
+    m128: bool,
+}
+
+fn fresh(m128: bool, rom_seeds: Option<(usize, usize)>, lines: &mut Vec<String>) -> Machine {
+    let mut e = emu(&Cfg::new(m128));
+    lines.push(format!("new {}", if m128 { 128 } else { 48 }));
+    if let Some((s0, s1)) = rom_seeds {
+        let mut pages = vec![VAsset::new((0..16384).map(|o| rom_byte(s0, o)).collect())];
+        lines.push(format!("rom 0 {:x}", s0));
+        if m128 {
+            pages.push(VAsset::new((0..16384).map(|o| rom_byte(s1, o)).collect()));
+            lines.push(format!("rom 1 {:x}", s1));
+        }
+        // short reads on the second page exercise read_exact
+        if let Some(p) = pages.get_mut(1) {
+            p.max_chunk = 1000;
+        }
+        if e.load_rom(Roms(pages)).is_err() {
+            panic!("load_rom failed on a well-formed ROM set");
+        }
+    }
+    Machine { e, m128 }
+}
+
+/// probe addresses: window edges and one inner byte per window
+const PROBES: [u16; 12] = [
+    0x0000, 0x1234, 0x3FFF, 0x4000, 0x5ABC, 0x7FFF, 0x8000, 0x9DEF, 0xBFFF, 0xC000, 0xE321, 0xFFFF,
+];
+
+struct Check {
+    what: String,
+    got: String,
+}
+
+/// applies ops to the real machine, appending the model requests and what was observed
+fn apply(m: &mut Machine, ops: &[Op], probes: &[u16], lines: &mut Vec<String>, checks: &mut Vec<(usize, Check)>) {
+    for op in ops {
+        match op {
+            Op::Out(p, v) => {
+                m.e.verif_write_io(*p, *v);
+                lines.push(format!("out {:02x}", v));
+            }
+            Op::Wr(a, v) => {
+                m.e.verif_write_mem(*a, *v, 3);
+                lines.push(format!("wr {:04x} {:02x}", a, v));
+            }
+            Op::Rd(a) => {
+                let got = m.e.verif_read_mem(*a, 3);
+                checks.push((lines.len(), Check { what: format!("read {:04x}", a), got: format!("{:02x}", got) }));
+                lines.push(format!("rd {:04x}", a));
+            }
+        }
+        // after every operation: paging registers and the probe addresses through peek
+        let (l, en, sb) = m.e.verif_paging();
+        checks.push((lines.len(), Check { what: "paging".into(), got: format!("{:02x} {} {}", l, en as u8, sb) }));
+        lines.push("pg".into());
+        for a in probes {
+            let got = m.e.peek(*a);
+            checks.push((lines.len(), Check { what: format!("peek {:04x}", a), got: format!("{:02x}", got) }));
+            lines.push(format!("rd {:04x}", a));
+        }
+    }
+}
+
+struct Fail {
+    kind: Kind,
+    what: String,
+    got: String,
+    want: String,
+}
+
+fn compare(m128: bool, answers: &[String], checks: &[(usize, Check)], rep: Option<&mut Report>) -> Option<Fail> {
+    let mut rep = rep;
+    for (idx, c) in checks {
+        let ans = &answers[*idx];
+        if let Some(r) = rep.as_deref_mut() {
+            r.eval();
+        }
+        if c.what == "paging" {
+            // model: "<7ffd> <enabled> <screen> <specLatch> <specLocked> <specScreen>"
+            let t: Vec<&str> = ans.split(' ').collect();
+            let model = format!("{} {} {}", t[0], t[1], t[2]);
+            let spec = if m128 {
+                format!("{} {} {}", t[3], if t[4] == "1" { 0 } else { 1 }, t[5])
+            } else {
+                // 48K: latch stays 0, paging never enabled, screen "bank" 0
+                "00 0 0".to_string()
+            };
+            if c.got != spec {
+                return Some(Fail { kind: Kind::SpecViolated, what: "paging state (latch, enabled, screen bank)".into(), got: c.got.clone(), want: spec });
+            }
+            if c.got != model {
+                return Some(Fail { kind: Kind::ModelMismatch, what: "paging state (latch, enabled, screen bank)".into(), got: c.got.clone(), want: model });
+            }
+        } else {
+            let mut it = ans.split(' ');
+            let model = it.next().unwrap_or("");
+            let spec = it.next().unwrap_or("");
+            if let Some(r) = rep.as_deref_mut() {
+                if c.got != "00" {
+                    r.class(format!("{} {}={}", if m128 { 128 } else { 48 }, c.what, c.got));
+                }
+            }
+            if c.got != spec {
+                return Some(Fail { kind: Kind::SpecViolated, what: c.what.clone(), got: c.got.clone(), want: spec.to_string() });
+            }
+            if c.got != model {
+                return Some(Fail { kind: Kind::ModelMismatch, what: c.what.clone(), got: c.got.clone(), want: model.to_string() });
+            }
+        }
+    }
+    None
+}
+
+fn run_case(model: &mut Model, m128: bool, roms: Option<(usize, usize)>, ops: &[Op], probes: &[u16], rep: Option<&mut Report>) -> Option<Fail> {
+    let mut lines = vec![];
+    let mut checks = vec![];
+    let mut m = fresh(m128, roms, &mut lines);
+    apply(&mut m, ops, probes, &mut lines, &mut checks);
+    let answers = model.ask_many(&lines);
+    compare(m.m128, &answers, &checks, rep)
+}
+
+fn case_text(m128: bool, roms: Option<(usize, usize)>, ops: &[Op]) -> String {
+    let mut s = format!("{} roms={}", if m128 { 128 } else { 48 }, roms.map(|(a, b)| format!("{:x},{:x}", a, b)).unwrap_or("-".into()));
+    for o in ops {
+        s.push_str(" ; ");
+        s.push_str(&o.text());
+    }
+    s
+}
+
+fn parse_case(s: &str) -> (bool, Option<(usize, usize)>, Vec<Op>) {
+    let mut parts = s.split(';').map(|x| x.trim());
+    let head: Vec<&str> = parts.next().unwrap_or("").split_whitespace().collect();
+    let m128 = head.first() == Some(&"128");
+    let roms = head.get(1).and_then(|r| {
+        let r = r.trim_start_matches("roms=");
+        let mut it = r.split(',');
+        Some((usize::from_str_radix(it.next()?, 16).ok()?, usize::from_str_radix(it.next()?, 16).ok()?))
+    });
+    (m128, roms, parts.filter_map(Op::parse).collect())
+}
+
+fn shrink(model: &mut Model, m128: bool, roms: Option<(usize, usize)>, ops: &[Op], kind: Kind) -> Vec<Op> {
+    let fails = |model: &mut Model, ops: &[Op]| matches!(run_case(model, m128, roms, ops, &PROBES, None), Some(ref f) if f.kind == kind);
+    let mut cur = ops.to_vec();
+    let mut chunk = (cur.len() / 2).max(1);
+    loop {
+        let mut i = 0;
+        let mut changed = false;
+        while i < cur.len() {
+            let end = (i + chunk).min(cur.len());
+            let mut cand = cur[..i].to_vec();
+            cand.extend_from_slice(&cur[end..]);
+            if !cand.is_empty() && fails(model, &cand) {
+                cur = cand;
+                changed = true;
+            } else {
+                i = end;
+            }
+        }
+        if chunk == 1 && !changed {
+            return cur;
+        }
+        chunk = (chunk / 2).max(1);
+    }
+}
+
+fn op_class(o: &Op) -> String {
+    match o {
+        Op::Out(p, v) => format!("out[{}{}{}]{}", if v & 0x20 != 0 { "L" } else { "" }, if v & 0x10 != 0 { "R" } else { "" }, if v & 8 != 0 { "S" } else { "" }, if *p == 0x7FFD { "" } else { "~" }),
+        Op::Wr(a, _) => format!("wr@{:x}", a >> 14),
+        Op::Rd(a) => format!("rd@{:x}", a >> 14),
+    }
+}
+
+fn report(model: &mut Model, rep: &mut Report, m128: bool, roms: Option<(usize, usize)>, ops: &[Op], f: Fail) {
+    let small = shrink(model, m128, roms, ops, f.kind);
+    let f2 = run_case(model, m128, roms, &small, &PROBES, None).unwrap_or(f);
+    let classes: Vec<String> = small.iter().map(op_class).collect();
+    rep.violation(Violation {
+        kind: f2.kind,
+        key: format!("C06/{}/{}/{}", if m128 { "128k" } else { "48k" }, classes.join(","), f2.what.split(' ').next().unwrap_or("")),
+        what: format!("after [{}]: {} is {} but {} says {}", small.iter().map(|o| o.text()).collect::<Vec<_>>().join("; "),
+            f2.what, f2.got, if f2.kind == Kind::SpecViolated { "the memory-map spec" } else { "the Lean model" }, f2.want),
+        correspondence: "corr.C06.memory-history (Model.Machine.Ctl.write7ffd/Mem vs write_7ffd/ZXMemory)".into(),
+        case: J::obj(vec![("text", J::s(case_text(m128, roms, &small)))]),
+        implementation: f2.got,
+        expected: f2.want,
+    });
+}
+
+/// a port that the 128K decodes to the paging latch (A15=0, A1=0, A0=1)
+fn paging_port(rng: &mut Rng) -> u16 {
+    if rng.chance(1, 2) {
+        0x7FFD
+    } else {
+        (rng.u16() & 0x7FFC) | 0x0001
+    }
+}
+
+fn random_ops(rng: &mut Rng, n: usize) -> Vec<Op> {
+    let addr = |r: &mut Rng| -> u16 {
+        match r.below(4) {
+            0 => *r.pick(&PROBES),
+            1 => (r.below(4) as u16) << 14 | (r.below(4) as u16),
+            2 => ((r.below(4) as u16) << 14 | 0x3FFC) + r.below(4) as u16,
+            _ => r.u16(),
+        }
+    };
+    (0..n)
+        .map(|_| match rng.below(10) {
+            0..=2 => {
+                // lock bit rarely, so that long unlocked stretches exist
+                let mut v = rng.u8();
+                if !rng.chance(1, 8) {
+                    v &= !0x20;
+                }
+                Op::Out(paging_port(rng), v)
+            }
+            3..=7 => Op::Wr(addr(rng), rng.u8() | 1),
+            _ => Op::Rd(addr(rng)),
+        })
+        .collect()
+}
+
+pub fn run(o: &Opts) -> Report {
     let mut rep = Report::new("C06");
-    rep.notes.push("not built yet".into());
+    rep.rule = "exhaustive part: from every one of the 64 paging states (bank 0-7 x screen x ROM x lock) every one of the \
+256 latch values is written, with marker bytes unique per RAM bank and ROM page; random part: seeded histories (<=40 ops) \
+of paging writes (canonical and partially decoded port addresses), memory writes and reads through all four windows, \
+on both machines, with host-supplied ROM sets; after every operation the paging registers and 12 probe addresses are \
+compared. distinct/non-trivial = distinct (machine, address, non-zero value read) observations".into();
+    let mut model = Model::spawn(&o.model, "C06");
+
+    if let Some(text) = &o.replay {
+        let (m128, roms, ops) = parse_case(text);
+        rep.sample(J::s(text.clone()));
+        if let Some(f) = run_case(&mut model, m128, roms, &ops, &PROBES, Some(&mut rep)) {
+            report(&mut model, &mut rep, m128, roms, &ops, f);
+        }
+        return rep;
+    }
+
+    // 1. exhaustive 64 x 256 on the 128K (and the same values on the 48K, where nothing may change)
+    let markers: Vec<Op> = {
+        // bank b gets marker 0xA0+b at offsets 0 and 0x3FFF (written through the 0xC000 window)
+        let mut v = vec![];
+        for b in 0..8u8 {
+            v.push(Op::Out(0x7FFD, b));
+            v.push(Op::Wr(0xC000, 0xA0 + b));
+            v.push(Op::Wr(0xFFFF, 0xB0 + b));
+        }
+        v
+    };
+    let probes_small: [u16; 6] = [0x0000, 0x4000, 0x8000, 0xC000, 0xFFFF, 0x7FFF];
+    for state in 0..64u8 {
+        let s = (state & 0x1F) | if state & 0x20 != 0 { 0x20 } else { 0 };
+        for v in 0..=255u8 {
+            // unlocked states continue on the same machine only through values without the lock bit;
+            // for simplicity and independence every (state, value) gets a fresh machine
+            let mut ops = markers.clone();
+            ops.push(Op::Out(0x7FFD, s));
+            ops.push(Op::Out(0x7FFD, v));
+            let mut lines = vec![];
+            let mut checks = vec![];
+            let mut m = fresh(true, Some((3, 9)), &mut lines);
+            // markers and state setup are not probed individually
+            apply(&mut m, &ops[..ops.len() - 1], &[], &mut lines, &mut checks);
+            apply(&mut m, &ops[ops.len() - 1..], &probes_small, &mut lines, &mut checks);
+            let answers = model.ask_many(&lines);
+            rep.count("exhaustive_states", if state & 0x20 != 0 { "from a locked state" } else { "from an unlocked state" });
+            if let Some(f) = compare(true, &answers, &checks, Some(&mut rep)) {
+                report(&mut model, &mut rep, true, Some((3, 9)), &ops, f);
+            }
+        }
+    }
+    for v in 0..=255u8 {
+        let ops = vec![Op::Wr(0xC000, 0x5A), Op::Out(0x7FFD, v), Op::Out(0x7FFD & 0x00FD | 0x0100, v)];
+        if let Some(f) = run_case(&mut model, false, Some((5, 0)), &ops, &PROBES, Some(&mut rep)) {
+            report(&mut model, &mut rep, false, Some((5, 0)), &ops, f);
+        }
+        rep.count("exhaustive_states", "48K");
+    }
+    rep.sample(J::s(case_text(true, Some((3, 9)), &[Op::Out(0x7FFD, 0x17), Op::Wr(0xC005, 0xAB), Op::Out(0x7FFD, 0x07), Op::Rd(0xC005)])));
+
+    // 2. random histories
+    let mut rng = Rng::new(o.seed);
+    let n = o.n(700, 100_000);
+    for h in 0..n {
+        let mut r = rng.fork();
+        let m128 = r.chance(3, 4);
+        let roms = if r.chance(2, 3) { Some((r.below(200) as usize, r.below(200) as usize)) } else { None };
+        let len = r.range(1, 40) as usize;
+        let ops = random_ops(&mut r, len);
+        for op in &ops {
+            rep.count("ops", op_class(op));
+        }
+        if h < 2 {
+            rep.sample(J::s(case_text(m128, roms, &ops)));
+        }
+        if let Some(f) = run_case(&mut model, m128, roms, &ops, &PROBES, Some(&mut rep)) {
+            report(&mut model, &mut rep, m128, roms, &ops, f);
+        }
+    }
+    rep.extra.push(("histories".into(), J::I(n as i64)));
     rep
 }
